@@ -127,6 +127,19 @@ def _gen(rng, tier, n):
         if rng.random() < 0.12 and len(props) >= 2:
             ops.append(alias_case(rng, props))
             continue
+        if rng.random() < 0.1:
+            # long orders (9..24 entries): two equal entries at ANY pair of positions must be rejected; without duplicates the listed
+            # names come first in that order
+            m = rng.randint(9, 24)
+            pool = ["n%02d" % i for i in range(m + 4)] + props
+            order = rng.sample(pool, min(m, len(pool)))
+            if rng.random() < 0.6:
+                i, j = sorted(rng.sample(range(len(order)), 2))
+                order[j] = order[i]
+            props = list(dict.fromkeys(props + rng.sample(order, rng.randint(0, min(6, len(order))))))
+            ops.append({"op": "marshal", "args": {"desc": mk(props, order, None)},
+                        "meta": {"props": props, "order": order, "nt": len(props) >= 2, "nested": None, "long": True}})
+            continue
         nested = rng.choice(props) if props and rng.random() < 0.3 else None
         args = {"desc": mk(props, order, nested)}
         if props and rng.random() < 0.2:
